@@ -30,6 +30,13 @@ def setup():
     for c in m1_ops.configs("quick"):
         s = m1_ops.run_model(c)
         print("tlc  %-22s generated=%d distinct=%d cached=%s %.1fs" % (c["name"], s["generated"], s["distinct"], s["cached"], s["wall_s"]))
+    from . import m2_query
+
+    for (prop, tier), cs in sorted(m2_query.CONFIGS.items()):
+        if tier == "quick":
+            for c in cs:
+                s = m2_query.run_model(c)
+                print("tlc  %-22s generated=%d distinct=%d cached=%s %.1fs" % (c["name"], s["generated"], s["distinct"], s["cached"], s["wall_s"]))
     return rc
 
 
